@@ -180,6 +180,26 @@ def lean_prepare(prop_id, extra_modules=(), thorough=False, log=print):
     return st
 
 
+def lean_prepare_driver_only(log=print):
+    st = LeanState()
+    lock = open(LEAN / '.lock', 'w')
+    fcntl.flock(lock, fcntl.LOCK_EX)
+    try:
+        import extract
+        try:
+            st.gen_changed = extract.regenerate(log=log)
+        except Exception as e:
+            st.gen_changed = ['<extract failed: %s>' % e]
+        rc, out = _run(['lake', 'build', 'driver'], cwd=LEAN, timeout=3000)
+        st.build_ok = rc == 0
+        st.driver_ok = rc == 0 and DRIVER.exists()
+        st.build_log = out
+    finally:
+        fcntl.flock(lock, fcntl.LOCK_UN)
+        lock.close()
+    return st
+
+
 def driver_batch(requests, timeout=1800):
     """Run the native model driver on a list of request dicts; returns the list of replies
     (the value under "ok", or {"error": …})."""
@@ -319,13 +339,19 @@ def run_check(mod, tier, seed):
     prop_id = mod.ID
     ctx = Ctx(prop_id, tier, seed)
     ctx.log('tier=%s seed=%d repo=%s' % (tier, seed, REPO))
-    lean = lean_prepare(prop_id, getattr(mod, 'EXTRA_MODULES', ()), thorough=ctx.thorough,
-                        log=ctx.log)
+    level = getattr(mod, 'LEVEL', 'proof')
+    if level == 'proof':
+        lean = lean_prepare(prop_id, getattr(mod, 'EXTRA_MODULES', ()), thorough=ctx.thorough,
+                            log=ctx.log)
+    else:
+        # interim check without Lean theorems of its own: the model driver is still (re)built because
+        # units may use it, but no theorem audit takes place and the evidence says `exploration`
+        lean = lean_prepare_driver_only(log=ctx.log)
     ctx.lean = lean
     broken = list(lean.bad)
 
     # correspondence
-    if lean.driver_ok:
+    if lean.driver_ok or level != 'proof':
         try:
             mod.units(ctx)
         except MachineryError:
@@ -416,7 +442,7 @@ def run_check(mod, tier, seed):
         'property_id': prop_id,
         'tier': tier,
         'seed': seed,
-        'level': 'proof',
+        'level': level,
         'coverage': {
             'obligations': obligations,
             'discharged': discharged,
@@ -456,6 +482,11 @@ def run_check(mod, tier, seed):
         'wall_s': round(wall, 2),
         'violations': len(new_violations) if new_violations else (1 if broken else 0),
     }
+    if level != 'proof':
+        cov = ev['coverage']
+        for k in ('obligations', 'discharged', 'checker_cmd', 'theorems', 'theorems_checked'):
+            cov.pop(k, None)
+        cov['exhaustive'] = bool(getattr(mod, 'EXHAUSTIVE', False))
     EVIDENCE.mkdir(exist_ok=True)
     (EVIDENCE / (prop_id + '.json')).write_text(json.dumps(ev, indent=1, ensure_ascii=False, default=str))
     for l in lines:
